@@ -85,6 +85,7 @@ abbrev Site := String × String × String × Nat     -- file, enclosing function
 /-- the class of every function that contains a diagnostic call site -/
 def fnClass : List (String × String × SiteClass) :=
   [ ("rattr/__main__.py", "main", .gate),
+    ("rattr/__main__.py", "write_cache_file", .gate),          -- since bcdf6de: an unwritable -C path is a fatal
     ("rattr/analyser/cls.py", "init_method_or_none", .analysis),
     ("rattr/analyser/file.py", "parse_and_analyse_imports", .importLoop),
     ("rattr/analyser/file.py", "FileAnalyser.visit_AnyFunctionDef", .analysis),
